@@ -262,7 +262,10 @@ def structured_strings(rng, n):
             return "(" + " + ".join(rng.choice(names + ["1", "(a b)"]) for _ in range(rng.randint(2, 3))) + ")"
         if r < 0.95:
             return rng.choice(names + ["", "(a b)", "[c]", "(a + b)", "[" + seq(d + 1) + "]", "(" + seq(d + 1) + ")"]) + "..."
-        return "(" + seq(d + 1) + " -> " + seq(d + 1) + ")"
+        if r < 0.975:
+            return "(" + seq(d + 1) + " -> " + seq(d + 1) + ")"
+        # nested commas (possibly at several levels of one expression)
+        return "(" + ", ".join(seq(d + 1) for _ in range(rng.randint(2, 3))) + ")"
 
     def seq(d):
         return " ".join(axis(d) for _ in range(rng.randint(0, 3)))
